@@ -165,7 +165,7 @@ def cases(tier, seed):
                 d["axis"] = sorted(rng.sample(range(nd), rng.randint(1, nd)))
             d["keepdims"] = rng.random() < 0.35
             d["split_every"] = rng.choice((None, None, 2, 3))
-            d["ddof"] = 1 if (d["op"] in ("std", "var") and rng.random() < 0.25) else 0
+            d["ddof"] = rng.choice((0, 0, 0, 1, 1, 2, 3)) if d["op"] in ("std", "var") else 0
         elif kind == "filled":
             d["call_fv"] = rng.choice(FILLS)
             d["plain"] = rng.random() < 0.1
@@ -549,6 +549,14 @@ def _run(case, ctx):
             # Calibration: with nothing masked numpy.ma's var/std give nan for mask=nomask (ndarray code path) but `masked`
             # for an all-False mask ARRAY; the two are the same mask, so the reference does not define this corner.
             ctx.reject("ddof >= count with nothing masked: numpy.ma's answer depends on nomask vs all-False mask array")
+            return
+        if dd and cnt.ndim == 0 and int(cnt) - ddof < 0:
+            # Calibration: for a scalar result numpy.ma only masks a division by zero (count == ddof); with count < ddof it
+            # returns the quotient by a negative number, i.e. an unmasked NEGATIVE variance (-0.0 in the seed-7 witness,
+            # var of 2 unmasked elements with ddof=3) where dask returns nan. A negative variance is an artefact of the
+            # reference, not a value the statement can demand; axis-wise lanes (where numpy.ma masks count <= ddof) and
+            # count == ddof stay in the domain.
+            ctx.reject("ddof > count with scalar output: numpy.ma returns a negative variance")
             return
         if empty:
             ctx.count("reduce_with_fully_masked_cell")
